@@ -70,9 +70,13 @@ def _get_const_repr(const_node):
         rank = len(tensor_proto.dims)
         if rank == 0:
             array = onnx.numpy_helper.to_array(tensor_proto).reshape(1)  # noqa: TID251
+            if not np.isfinite(array[0]):
+                return None  # "nan" / "inf" are not python literals
             return str(array[0])
         if rank == 1 and tensor_proto.dims[0] < 5:
             nparray = onnx.numpy_helper.to_array(tensor_proto)  # noqa: TID251
+            if not np.all(np.isfinite(nparray)):
+                return None
             return repr(nparray.tolist())
     return None
 
